@@ -316,10 +316,11 @@ WebSocketMsg WebSocket::receive()
 			return msg.fix();
 		}
 
-		// len is what the peer announced: the buffer grows as the payload actually arrives
+		// len is what the peer announced: the buffer grows as the payload actually arrives (at most doubling)
 		for (int got = 0; got < len;)
 		{
-			int chunk = (len - got < (1 << 16)) ? len - got : (1 << 16);
+			int step = (got < (1 << 16)) ? (1 << 16) : got;
+			int chunk = (len - got < step) ? len - got : step;
 			buffer.resize(got + chunk);
 			if (_socket.read(buffer.data() + got, chunk) != chunk) // the stream ended inside the payload
 			{
